@@ -1,5 +1,6 @@
-(* J5sWitnessProofs.v — concrete valid packages on which the faithful model (and the real
-   compiler: corpus cases of the same name in harness/j5sgen/corpus.go) violates C02 / C13. *)
+(* J5sWitnessProofs.v — concrete packages: the inputs of the defects found (all repaired; the
+   same packages are corpus cases in harness/j5sgen/corpus.go and are replayed on the real
+   compiler on every run) now compile to the declared contract. *)
 From Coq Require Import String List NArith Bool.
 From J5V.lib Require Import Outcome Corr Strcase.
 From J5V.model Require Import J5sAst Desc J5sWalk J5sLink J5sConvert J5sContract J5sValid J5sEdit J5sCorr.
@@ -11,24 +12,6 @@ Definition valid (bd : bundle) : bool := valid_bundle to_snake to_camel bd.
 Definition sfield (n : string) : property := Property (b n) false false (FScalar SString).
 Definition foo_v1 : list str := [b "foo"; b "v1"].
 
-(* object Foo { field foo object { field y string } } *)
-Definition w_named_like_parent : bundle :=
-  [BJ (mkJfile foo_v1 (b "a") []
-     [EObject (b "Foo")
-        (mkprops [Property (b "foo") false false (FObjInline [] (mkprops [sfield "y"]))]) NNil])].
-
-Lemma named_like_parent_rejected :
-  valid w_named_like_parent = true /\
-  compile w_named_like_parent (b "foo.v1") = Err "unknown type: resolved to a name which is not defined".
-Proof. split; vm_compute; reflexivity. Qed.
-
-(* object Foo { field x object { field q string }  object Foo { object X { field other string } } } *)
-Definition w_captured : bundle :=
-  [BJ (mkJfile foo_v1 (b "a") []
-     [EObject (b "Foo")
-        (mkprops [Property (b "x") false false (FObjInline [] (mkprops [sfield "q"]))])
-        (mknesteds [NObject (b "Foo") PNil (mknesteds [NObject (b "X") (mkprops [sfield "other"]) NNil])])])].
-
 Definition first_field_tname (D : list dfile) : str :=
   match D with
   | f :: _ => match fl_msgs f with
@@ -38,38 +21,45 @@ Definition first_field_tname (D : list dfile) : str :=
   | [] => []
   end.
 
-(* the field's declared type is the inline object foo.v1.Foo.X; it resolves to foo.v1.Foo.Foo.X *)
-Lemma captured_silently :
+(* object Foo { field foo object { field y string } }  (failed to link before fix 2ef7c92) *)
+Definition w_named_like_parent : bundle :=
+  [BJ (mkJfile foo_v1 (b "a") []
+     [EObject (b "Foo")
+        (mkprops [Property (b "foo") false false (FObjInline [] (mkprops [sfield "y"]))]) NNil])].
+
+Lemma named_like_parent_compiles :
+  valid w_named_like_parent = true /\
+  exists D, compile w_named_like_parent (b "foo.v1") = Ok D /\
+            first_field_tname D = abs_name (b "foo.v1") [b "Foo"; b "Foo"].
+Proof. split; [vm_compute; reflexivity|]. eexists. split; vm_compute; reflexivity. Qed.
+
+(* object Foo { field x object { field q string }  object Foo { object X { field other string } } }
+   (field x silently got the type foo.v1.Foo.Foo.X before the fix) *)
+Definition w_captured : bundle :=
+  [BJ (mkJfile foo_v1 (b "a") []
+     [EObject (b "Foo")
+        (mkprops [Property (b "x") false false (FObjInline [] (mkprops [sfield "q"]))])
+        (mknesteds [NObject (b "Foo") PNil (mknesteds [NObject (b "X") (mkprops [sfield "other"]) NNil])])])].
+
+Lemma captured_resolves_to_declared :
   valid w_captured = true /\
   exists D, compile w_captured (b "foo.v1") = Ok D /\
-            first_field_tname D = b ".foo.v1.Foo.Foo.X" /\
-            first_field_tname D <> abs_name (b "foo.v1") [b "Foo"; b "X"].
-Proof.
-  split; [vm_compute; reflexivity|]. eexists. split; [vm_compute; reflexivity|].
-  split; [vm_compute; reflexivity|]. vm_compute. discriminate.
-Qed.
+            first_field_tname D = abs_name (b "foo.v1") [b "Foo"; b "X"].
+Proof. split; [vm_compute; reflexivity|]. eexists. split; vm_compute; reflexivity. Qed.
 
-(* C13: object Foo { field x object {} } compiles; appending `field foo object {}` (a valid
-   package again) does not: an existing field's type no longer resolves *)
+(* C13: object Foo { field x object {} } + appended `field foo object {}` (broke field x before the fix) *)
 Definition w_before : bundle :=
   [BJ (mkJfile foo_v1 (b "a") []
      [EObject (b "Foo") (mkprops [Property (b "x") false false (FObjInline [] PNil)]) NNil])].
 Definition w_edit : list edit := [EAppendField 0 0 (Property (b "foo") false false (FObjInline [] PNil))].
 
-Lemma append_breaks_existing :
+Lemma append_keeps_existing :
   valid w_before = true /\ valid (apply_edits w_before w_edit) = true /\
-  is_ok (compile w_before (b "foo.v1")) = true /\
-  is_err (compile (apply_edits w_before w_edit) (b "foo.v1")) = true.
-Proof. repeat split; vm_compute; reflexivity. Qed.
-
-Lemma full_statement_refuted :
-  ~ (forall bd es pkg D,
-       valid bd = true -> valid (apply_edits bd es) = true ->
-       compile bd pkg = Ok D ->
-       exists D', compile (apply_edits bd es) pkg = Ok D' /\ files_ext D D').
+  exists D D', compile w_before (b "foo.v1") = Ok D /\
+               compile (apply_edits w_before w_edit) (b "foo.v1") = Ok D' /\
+               first_field_tname D' = first_field_tname D /\
+               first_field_tname D = abs_name (b "foo.v1") [b "Foo"; b "X"].
 Proof.
-  intros H. destruct append_breaks_existing as (V & V' & Hok & Herr).
-  destruct (compile w_before (b "foo.v1")) as [D| | |] eqn:E; try discriminate.
-  destruct (H w_before w_edit (b "foo.v1") D V V' E) as (D' & HD' & _).
-  rewrite HD' in Herr. discriminate.
+  split; [vm_compute; reflexivity|]. split; [vm_compute; reflexivity|].
+  eexists. eexists. repeat split; vm_compute; reflexivity.
 Qed.
